@@ -120,11 +120,14 @@ CHECKS["C07"] = dict(
          "ln |det| of the full matrix of partial derivatives (C07_cumsum/cumsumexp/cumsumsoftplus_report_is_logabsdet, "
          "C07_ratio_report_is_logabsdet(_indexed) on every topology), the determinant being the Laplace expansion, "
          "C07_det_lower/upper_triangular = product of the diagonal (the same definition equals mathcomp's det on every "
-         "commutative ring, proof/P_tridet_mc.v). The models are tied "
+         "commutative ring, proof/P_tridet_mc.v). The five list transforms of distributions/transforms.py are "
+         "REGENERATED from the source on every run (translator T10 -> gen/G_transforms.v) and "
+         "C07_transform_source_is_model proves the regenerated _call/_inverse/log_abs_det_jacobian equal to the "
+         "model's; all models are also tied "
          "to the code by interval-run correspondence on transform(x), .inv(y), .log_abs_det_jacobian, "
          "TransformedParameter() and ReparameterizedTimeTreeModel(); the property itself (reported = slogdet of the "
          "autograd Jacobian; inv(fwd(x)) = x) is evaluated on the implementation for every case.",
-    note="Trusted: Coq kernel; hand-written models; the ratio Jacobian is taken with rows and columns in pre-order (a "
+    note="Trusted: Coq kernel; translator T10; hand-written models; the ratio Jacobian is taken with rows and columns in pre-order (a "
          "simultaneous reordering by node index does not change |det|: not proved on lists); torch autograd on the implementation side; StickBreaking / "
          "ConvexCombination / RescaledRate transforms not covered (non-square or nothing reported); TrilExpDiagonal: "
          "inverse only (it reports no log-det).",
